@@ -426,7 +426,7 @@ def check_rk_call_caught_fault(reg, src, prop):
     return fi
 
 
-def check_rk_call_unbounded(reg, src, prop, implicit, adaptive, keep=None):
+def check_rk_call_unbounded(reg, src, prop, implicit, adaptive, keep=None, faulting=False):
     """RungeKuttaIntegrator.__call__ with the retry loop `for _ in range(num_step_retries)` *cut by an invariant* instead of unrolled: the
     clauses hold for every retry budget (the shipped default is 64) and every number of retries actually made.
       invariant at the head of a retry: the step is to be redone; the proposal `timestep` has the sign of the requested step; the step
@@ -440,6 +440,15 @@ def check_rk_call_unbounded(reg, src, prop, implicit, adaptive, keep=None):
 
     def step_stub(ex_, st_, ctx, args, kwargs):
         selfref, ts = args[0], args[5]
+        if faulting:
+            # the right-hand side may fail inside any step (first attempt or any retry) with an error that is not one of the caught classes
+            from pyvc.values import ExcVal
+            sr = st_.fork()
+            sr.ghost["fault_raised"] = True
+            return [(sr, Raised(ExcVal("RuntimeError", tag="rhs-fault"))), (st_, _ok(st_, selfref, ts))]
+        return _ok(st_, selfref, ts)
+
+    def _ok(st_, selfref, ts):
         flag = z3.Bool(fresh_name("newton_ok"))
         st_.obj(st_.obj(selfref).fields["solver_dict"]).items["newton_iteration_success"] = flag
         st_.ghost["last_newton"] = flag
@@ -489,14 +498,20 @@ def check_rk_call_unbounded(reg, src, prop, implicit, adaptive, keep=None):
                               "implies(not redo_step, not g_rejected" + (" and g_newton" if implicit else "") + ")"]}}
     c = Contract(FT, "RungeKuttaIntegrator.__call__", sorts={}, requires=[], ensures=[], loops=loops)
     label = "implicit" if implicit and not adaptive else ("implicit-adaptive" if implicit else ("adaptive" if adaptive else "explicit-fixed"))
-    ctx = Ctx(fi, c, fi.cls, tag="RungeKuttaIntegrator.__call__[%s,any-number-of-retries]" % label)
+    ctx = Ctx(fi, c, fi.cls, tag="RungeKuttaIntegrator.__call__[%s,any-number-of-retries%s]" % (label, ",faults" if faulting else ""))
     ctx.entry = st.fork()
     h = z3.Real("h0")
     st.assume(h != 0)
     consts = st.new_obj("dict", "dict", items={})
     paths = ex.call_function(fi, [selfobj, UFunc("rhs", "real"), z3.Real("t"), z3.Real("y"), consts, h], {}, st, ctx, contract=c)
-    n_ret = n_raise = 0
+    n_ret = n_raise = n_fault = 0
     for k, (s, v) in enumerate(paths):
+        if s.ghost.get("fault_raised"):
+            # C12: the fault escapes unchanged -- from the first attempt and from any retry (no handler of __call__ swallows it)
+            n_fault += 1
+            reg.ground("%s/%s/rhs-fault-propagates#path%d" % (prop, ctx.tag, k), "post-exc", "__call__", isinstance(v, Raised) and v.exc.cls == "RuntimeError", backend="symbolic-exec",
+                       detail="a RuntimeError raised inside step() escapes __call__ (outcome: %s)" % ("raised " + v.exc.cls if isinstance(v, Raised) else "returned normally"))
+            continue
         if isinstance(v, Raised):
             n_raise += 1
             reg.ground("%s/%s/raises-only-FailedToMeetTolerances#path%d" % (prop, ctx.tag, k), "post-exc", "__call__", v.exc.cls == "FailedToMeetTolerances", backend="symbolic-exec",
@@ -511,5 +526,6 @@ def check_rk_call_unbounded(reg, src, prop, implicit, adaptive, keep=None):
             ex.prove(s, ctx, s.ghost.get("last_newton", False), "post", "unconverged-never-returned#path%d" % k)
         if not implicit and not adaptive:
             ex.prove(s, ctx, z3.And(dT == h, new_dt == h), "post", "fixed-step-exact#path%d" % k)
-    reg.ground("%s/%s/paths-explored" % (prop, ctx.tag), "lemma", "__call__", n_ret >= 1 and (n_raise >= 1 or not (adaptive or implicit)), detail="%d returning, %d raising paths" % (n_ret, n_raise))
+    reg.ground("%s/%s/paths-explored" % (prop, ctx.tag), "lemma", "__call__", n_ret >= 1 and (n_raise >= 1 or not (adaptive or implicit)) and (n_fault >= (2 if (adaptive or implicit) else 1) or not faulting),
+               detail="%d returning, %d raising paths, %d paths with an injected fault" % (n_ret, n_raise, n_fault))
     return fi
